@@ -34,11 +34,12 @@ def run(rep, tier, seed):
                            label="MC_C01 scripts up to %d items (templates with overlapping names, several registers per argument)" % n)
     c1 = [c for c in c1 if interesting(c)]
     cfg = loadcheck.cfg_text(2, "MainsQuick" if tier == "quick" else "Mains", "Items", emit=False, invariants=[], props=[], fs="FS7", basedir="W",
-                             extra_consts="CONSTRAINT EmitPlain\n")
+                             extra_consts="CONSTANT LinkTarget <- LinkTarget7\nCONSTRAINT EmitPlain\n")
     r7 = common.run_tlc("MC_C07", cfg, timeout=3000)
     common.require_ok(r7, "MC_C07")
     rep.add_tlc(r7, "MC_C07 include layouts x calls (callee mode sets {1,3,8}, {0,1}, {0,9}, {2,4})")
     files = r7.tagged("FILES")[0]
+    links = r7.tagged("LINKS")[0]
     seen = {}
     for c in r7.tagged("CASE"):
         if c["out"]["k"] == "ok":
@@ -49,6 +50,7 @@ def run(rep, tier, seed):
         c7 = random.Random(seed).sample(c7, min(len(c7), 1200))
     for c in c7:
         c["files"] = files
+        c["links"] = links
         c["sections"] = ["ops", "modes"]
         c["num_kind"] = False
     for c in c1:
